@@ -123,6 +123,9 @@ func vConfig(o vOpts) *config.Config {
 	if o.MaxIdleMs > 0 {
 		c.DMaps.MaxIdleDuration = time.Duration(o.MaxIdleMs) * time.Millisecond
 	}
+	// one background eviction worker (default: one per CPU) so that an expired
+	// key usually stays "not yet evicted" for a while; explicit scans are harness steps
+	c.DMaps.NumEvictionWorkers = 1
 	c.DMaps.TriggerCompactionInterval = 150 * time.Millisecond
 	c.DMaps.CheckEmptyFragmentsInterval = 200 * time.Millisecond
 	return c
